@@ -133,7 +133,7 @@ End P.
     deliveries, B stamps its operation id while A is between its stamp and its Publish: A's reply goes
     out with B's operation id *)
 Definition shared_cs : nat -> pcfg := fun _ => PCfg true false false.
-Definition shared_ins : nat -> pinput := fun t => PIn true (N.of_nat (10 + t)) 3 None (N.of_nat (20 + t)) true true true false.
+Definition shared_ins : nat -> pinput := fun t => PIn true (N.of_nat (10 + t)) 3 None (N.of_nat (20 + t)) true true true false EPlain CtxLive.
 Definition shared_sched : list (nat * dop) :=
   [(0, DMarshal); (0, DStampOp); (1, DMarshal); (1, DStampOp); (0, DPublish)].
 
